@@ -5,3 +5,5 @@ pub fn no_fmt(_args: core::fmt::Arguments<'_>) -> alloc::string::String {
     alloc::string::String::new()
 }
 extern crate alloc;
+
+pub mod hashers;
